@@ -207,7 +207,10 @@ abbrev Bytes := List UInt8
 structure Limits where
   maxUri : Nat := 65534        -- http::Uri
   maxHeaders : Nat := 100      -- hyper's httparse header array
-  maxHead : Nat := 417792      -- hyper's default max_buf_size (8192 + 4096 * 100)
+  /-- hyper's default max_buf_size is 8192 + 4096 * 100 = 417792, checked after each
+  read while the head is incomplete; a read adds at most that much, so a head is
+  *certainly* refused only beyond twice that size (observed: 430 060 bytes accepted) -/
+  maxHead : Nat := 835584
   maxBody : Nat := 1024        -- the harness server's default_request_body_max_bytes
 
 def isDigit (b : UInt8) : Bool := 0x30 ≤ b && b ≤ 0x39
